@@ -143,6 +143,39 @@ theorem form_value_roundtrip (enc : Encoding) (spec : Spec) (p : Payload) (bytes
   rw [parseLoop_succ_direct _ _ _ _ _ hni]
   exact parseDirect_roundtrip enc spec spec.form p bytes rest henc (fun h => ⟨h, himp h⟩)
 
+/-- **`read_attributes_roundtrip`**: the list version — the attribute values of an entry,
+encoded one after the other, read back as exactly those values in order, and the reader stops
+exactly behind them. (This is the hypothesis under which C02 reads a forest: `ForestOK`.) -/
+theorem read_attributes_roundtrip (enc : Encoding) : ∀ (sps : List (Spec × Payload)) (bytes rest : Bytes),
+    encodeAttrs enc sps = some bytes →
+    (∀ sp ∈ sps, sp.1.form = .implicitConst → sp.2 = .int sp.1.implicitConst) →
+    readAttributes enc (sps.map (·.1)) (bytes ++ rest) =
+      .ok (sps.map (fun sp => ⟨rawKind enc sp.1.name sp.1.form, sp.2⟩), rest) := by
+  intro sps
+  induction sps with
+  | nil =>
+    intro bytes rest h _
+    simp only [encodeAttrs, Option.some.injEq] at h
+    subst h; rfl
+  | cons sp sps ih =>
+    intro bytes rest h himp
+    obtain ⟨s, p⟩ := sp
+    simp only [encodeAttrs] at h
+    cases h1 : encodeForm enc s.form p with
+    | none => rw [h1] at h; simp at h
+    | some b =>
+      cases h2 : encodeAttrs enc sps with
+      | none => rw [h1, h2] at h; simp at h
+      | some bs =>
+        rw [h1, h2] at h
+        simp only [Option.some.injEq] at h
+        subst h
+        simp only [List.map_cons, readAttributes, List.append_assoc]
+        rw [form_value_roundtrip enc s p b (bs ++ rest) h1 (himp (s, p) (by simp))]
+        simp only [Out.bind_ok]
+        rw [ih bs rest h2 (fun x hx => himp x (by simp [hx]))]
+        rfl
+
 /-- **`indirect_roundtrip`.** `DW_FORM_indirect`, nested to any depth: the attribute is written
 as `k` times the code of `DW_FORM_indirect` (k ≥ 0), the ULEB128 code of the real form, and that
 form's encoding. Decoding yields the real form's value and class and consumes exactly those
